@@ -3,6 +3,7 @@
 import DW.Driver.Strings
 import DW.Driver.Core
 import DW.Driver.Caches
+import DW.Driver.Conc
 
 open Lean DW.Driver
 
@@ -14,6 +15,7 @@ def dispatch (j : Json) : Except String Json := do
   | "load" => handleLoad j
   | "loadv1" => handleLoadV1 j
   | "caches" => handleCaches j
+  | "conc" => handleConc j
   | x => throw s!"unknown op {x}"
 
 def handleLine (line : String) : String :=
